@@ -97,11 +97,19 @@ def extract(config, th=None, quiet=True):
     fcntl.flock(lock, fcntl.LOCK_EX)
     try:
         if os.path.exists(out) and os.path.getsize(out) > 0:
+            try:
+                os.utime(out)
+            except OSError:
+                pass
             return out
-        # prune old cache entries for this config
+        # prune cache entries of other trees for this config, but only ones not used for an hour: several checks may run
+        # concurrently on different trees (probe runners), and one must not delete the file another is about to load
+        now = time.time()
         for f in os.listdir(CACHE):
             if f.startswith("facts-%s-" % config) and f.endswith(".jsonl") and th not in f:
                 try:
+                    if now - os.path.getmtime(os.path.join(CACHE, f)) < 3600:
+                        continue
                     os.remove(os.path.join(CACHE, f))
                     os.remove(os.path.join(CACHE, f + ".lock"))
                 except OSError:
@@ -204,7 +212,13 @@ def load(config, th=None):
     th = th or tree_hash()
     key = (config, th)
     if key not in _loaded:
-        _loaded[key] = Facts(extract(config, th), config)
+        for attempt in range(3):
+            try:
+                _loaded[key] = Facts(extract(config, th), config)
+                break
+            except FileNotFoundError:
+                if attempt == 2:
+                    raise
     return _loaded[key]
 
 
